@@ -1821,8 +1821,11 @@ def canonical_private_names(trees: dict[str, ast.Module], known: dict, known_tre
             renamed.append(f"function {mod}:{n} -> {k}")
     # private attributes: same usage pattern (after the method renamings above)
     cur_attrs = cur["attrs"]
-    missing = {a: sig for a, sig in kt["attrs"].items() if a not in cur_attrs and a not in all_known_methods}
-    new = {a: [x.split("/")[0] for x in sig] for a, sig in cur_attrs.items() if a not in kt["attrs"] and a not in all_cur_methods and a not in attr_map}
+    # only attributes the repository itself defines (assigned somewhere: `self._x = ...`) can be renamed by a refactoring of the
+    # repository; names that are only ever read belong to somebody else's API (torch._foreach_*, dist._*): never touched
+    stored = lambda sig: any(x.endswith("/S") for x in sig)  # noqa: E731
+    missing = {a: sig for a, sig in kt["attrs"].items() if a not in cur_attrs and a not in all_known_methods and stored(sig)}
+    new = {a: [x.split("/")[0] for x in sig] for a, sig in cur_attrs.items() if a not in kt["attrs"] and a not in all_cur_methods and a not in attr_map and stored(sig)}
     def norm_sig(sig):
         return sorted(f"{attr_map.get(x.split('/')[0], x.split('/')[0])}/{x.split('/')[1]}" for x in sig)
     for n, _ in sorted(new.items()):
